@@ -309,6 +309,21 @@ func (c *tctx) apply(m *rmsg, mu mut) string {
 		}
 		c.setProof(m, k, m.MHeight)
 		return "proof-other-key"
+	case "proof-keyswap":
+		// the key the honest proof would have if the identifiers of the two ends were confused
+		var k []byte
+		switch {
+		case m.V2 && m.IsAck:
+			k = hostv2.PacketAcknowledgementKey(c.p.P2.SourceClient, c.p.P2.Sequence)
+		case m.V2:
+			k = hostv2.PacketCommitmentKey(c.p.P2.DestinationClient, c.p.P2.Sequence)
+		case m.IsAck:
+			k = host.PacketAcknowledgementKey(c.p.P1.SourcePort, c.p.P1.SourceChannel, c.p.P1.Sequence)
+		default:
+			k = host.PacketCommitmentKey(c.p.P1.DestinationPort, c.p.P1.DestinationChannel, c.p.P1.Sequence)
+		}
+		c.setProof(m, k, m.MHeight)
+		return "proof-keyswap"
 	case "proof-twin":
 		if t := c.twin(); t != nil {
 			c.setProof(m, c.proofKey(t), m.MHeight)
